@@ -56,11 +56,12 @@ theorem handleReq_atomic_per_mid : Generated.Dedup.handleReqLockedPerMID = true 
 /-- The connections the servers create themselves are the connections the theorems are about: `dtls/server.createConn`
     and `udp/server.getOrCreateConn` build them with `udp/client`'s default response cache (no replacement cache is
     handed in), and the datagram server finds a peer's existing connection (concrete local address) before the
-    wildcard-keyed one that `Server.NewConn` makes — so a peer's datagrams keep reaching the connection that holds
-    its replies.  (The behaviour itself is checked on real servers by the harness levels `dtlssrv` and `udpsrv`.) -/
+    wildcard-keyed one that `Server.NewConn` makes, under a local address that is taken anew for every datagram (a
+    multicast datagram is not keyed under the destination of whatever unicast datagram came before it) — so a peer's
+    datagrams keep reaching the connection that holds its replies.  (The behaviour itself is checked on real servers by the harness levels `dtlssrv` and `udpsrv`.) -/
 theorem server_made_connections_keep_the_cache :
     Generated.Dedup.dtlsServerConnDefaultCache = true ∧ Generated.Dedup.udpServerConnDefaultCache = true ∧
-    Generated.Dedup.udpPeerLookupConcreteFirst = true := by decide
+    Generated.Dedup.udpPeerLookupConcreteFirst = true ∧ Generated.Dedup.udpLocalAddrCopiedPerDatagram = true := by decide
 
 /-! ## the invariant holds on every reachable state -/
 
